@@ -201,7 +201,7 @@ class Ob:
 
 def guarded(ctx, name, claim, bounds, profile, body, replay=None):
     only = os.environ.get("E2_ONLY")
-    if only and only not in name:
+    if only and (name != only[:-1] if only.endswith("$") else only not in name):
         return None
     ob = Ob(ctx, name, claim, bounds, profile)
     sys.stderr.write("[e2] %s ...\n" % name); sys.stderr.flush()
@@ -1748,6 +1748,128 @@ def c25(ctx):
                 exq.overrides = {}
         return body
 
+
+    # ---------------------------------------------------------------- encipher -> decipher round trip
+    U64_, U32_, U8_ = 2 ** 64 - 1, 2 ** 32 - 1, 255
+
+    def make_roundtrip(etch_mask, terms_mask, has_mint, has_ptr, ne, M=2, cap_max=None):
+        """etch_mask: None (no etching) or 5 bits (divisibility, premine, rune, spacers, symbol);
+        terms_mask: None or 6 bits (amount, cap, height.0, height.1, offset.0, offset.1)"""
+        def body(ob):
+            exq = ob.ex()
+            pre, vars_ = [], {}
+            def sym(name, hi, lo=0):
+                v = z3.Int(name); vars_[name] = v
+                pre.extend([v >= lo, v <= hi])
+                return v
+            def opt(v):
+                return Enum("Option", 1, [v]) if v is not None else Enum("Option", 0, [])
+            def rid(name):
+                b, t = sym(name + "_block", U64_), sym(name + "_tx", U32_)
+                pre.append(z3.Or(b > 0, t == 0))             # RuneId::new refuses block 0 with tx > 0
+                return Struct([b, t])
+            etching = None
+            turbo = None
+            if etch_mask is not None:
+                d = sym("divisibility", 38) if etch_mask[0] else None
+                pm = sym("premine", U128) if etch_mask[1] else None
+                rn = Struct([sym("rune", U128)]) if etch_mask[2] else None
+                sp = sym("spacers", 0x7ffffff) if etch_mask[3] else None
+                sy = sym("symbol", 0x10ffff) if etch_mask[4] else None
+                if sy is not None:
+                    pre.append(z3.Or(sy < 0xd800, sy > 0xdfff))   # a char
+                terms = None
+                if terms_mask is not None:
+                    am = sym("amount", U128) if terms_mask[0] else None
+                    cp = sym("cap", U128 if cap_max is None else cap_max) if terms_mask[1] else None
+                    hs = [sym("height%d" % k, U64_) if terms_mask[2 + k] else None for k in range(2)]
+                    os_ = [sym("offset%d" % k, U64_) if terms_mask[4 + k] else None for k in range(2)]
+                    terms = Struct([opt(am), opt(cp), Struct([opt(hs[0]), opt(hs[1])]), Struct([opt(os_[0]), opt(os_[1])])])
+                    # supply = premine + cap * amount must fit u128 (otherwise the etching is a cenotaph by design)
+                    pre.append((pm if pm is not None else 0) + (cp if cp is not None else 0) * (am if am is not None else 0) <= U128)
+                turbo = z3.Bool("turbo"); vars_["turbo"] = turbo
+                etching = Struct([opt(d), opt(pm), opt(rn), opt(sp), opt(sy), opt(terms), turbo])
+            mint = rid("mint") if has_mint else None
+            ptr = sym("pointer", M - 1) if has_ptr else None
+            edicts = []
+            for k in range(ne):
+                i_ = rid("e%d" % k)
+                edicts.append(Struct([i_, sym("e%d_amount" % k, U128), sym("e%d_output" % k, M)]))
+            ob.vars = vars_
+            original = Struct([Container("vec", [_copy.deepcopy(e) for e in edicts]), opt(etching), opt(mint), opt(ptr)])
+            def ov_enc(e, st_, a):
+                buf = a[1]
+                while isinstance(buf, X.Ref):
+                    buf = buf.get()
+                buf.append(a[0])
+                st_.keep.append(a[0])
+                return Struct([])
+            exq.overrides = {r"^(.*::)?encode_to_vec$": ov_enc}
+            try:
+                st = X.State(); st.pc = list(pre); st.keep = []
+                res = exq.run("runestone::_::encipher", [X.Ref([_copy.deepcopy(original)])], st)
+            finally:
+                exq.overrides = {}
+            ob.paths += len(res)
+            for r in res:
+                if r.kind != "return":
+                    ob.reach(r.pc, "encipher panics: " + r.msg)
+                    continue
+                ints = list(r.keep)
+                exq.overrides = {
+                    "Runestone::payload": lambda ex, st_, args: Enum("Option", 1, [Enum("runestone::Payload", 0, [Container("vec", [])])]),
+                    "Runestone::integers": lambda ex, st_, args, ints=ints: Enum("Result", 0, [Container("vec", list(ints))]),
+                }
+                try:
+                    tx = Struct([2, 0, Container("vec", []), Container("vec", [X.Opaque("txout") for _ in range(M)])])
+                    st2 = X.State(); st2.pc = list(r.pc)
+                    res2 = exq.run("runestone::_::decipher", [X.Ref([tx])], st2)
+                finally:
+                    exq.overrides = {}
+                for r2 in res2:
+                    ob.paths += 1
+                    if r2.kind != "return":
+                        ob.reach(r2.pc, "decipher panics on an enciphered runestone: " + r2.msg)
+                        continue
+                    if r2.value.variant != 1 or r2.value.fields[0].variant != 1:
+                        ob.query(r2.pc, False, ob.vars, "an enciphered well-formed runestone deciphers to nothing or to a cenotaph")
+                        continue
+                    got = r2.value.fields[0].fields[0]
+                    conds = [same_value(got[1], opt(etching)), same_value(got[2], opt(mint)), same_value(got[3], opt(ptr))]
+                    ge = list(got[0])
+                    if len(ge) != ne:
+                        conds.append(None)
+                    elif ne == 1:
+                        conds.append(same_value(ge[0], edicts[0]))
+                    elif ne == 2:
+                        a_, b_ = edicts
+                        le = z3.Or(a_[0][0] < b_[0][0], z3.And(a_[0][0] == b_[0][0], a_[0][1] <= b_[0][1]))   # stable: ties keep their order
+                        keep = z3.And(same_value(ge[0], a_), same_value(ge[1], b_))
+                        swap = z3.And(same_value(ge[0], b_), same_value(ge[1], a_))
+                        conds.append(z3.Or(z3.And(le, keep), z3.And(z3.Not(le), swap)))
+                    elif ne > 2:
+                        raise Unsupported("round trip with more than 2 edicts")
+                    ok = all(c is not None for c in conds)
+                    ob.query(r2.pc, z3.And(*conds) if ok else False, ob.vars, "decipher(encipher(r)) differs from r (edicts sorted by id, ties in order)")
+        return body
+
+    import copy as _copy
+    ALL5, ALL6 = (1, 1, 1, 1, 1), (1, 1, 1, 1, 1, 1)
+    shapes = [("plain_mint_ptr_e2", None, None, True, True, 2), ("etch_full_terms_full_mint_ptr_e1", ALL5, ALL6, True, True, 1),
+              ("etch_empty", (0, 0, 0, 0, 0), None, False, False, 0), ("etch_alt_terms_alt", (1, 0, 1, 0, 1), (0, 1, 0, 1, 0, 1), False, True, 0),
+              ("etch_alt2_terms_alt2_e1", (0, 1, 0, 1, 0), (1, 0, 1, 0, 1, 0), True, False, 1), ("nothing", None, None, False, False, 0)]
+    if ctx.tier == "thorough":
+        rnd = random.Random(C.seed() + 25)
+        for k in range(16):
+            em = tuple(rnd.randrange(2) for _ in range(5)) if rnd.random() < 0.8 else None
+            tm = tuple(rnd.randrange(2) for _ in range(6)) if em is not None and rnd.random() < 0.7 else None
+            shapes.append(("r%d" % k, em, tm, rnd.random() < 0.5, rnd.random() < 0.5, rnd.randrange(3)))
+    for nm, em, tm, hm, hp, ne in shapes:
+        guarded(ctx, "c25_roundtrip_%s" % nm,
+                "a well-formed runestone enciphered by Runestone::encipher deciphers back to the same runestone, with its edicts ordered by rune id (ties keep their order)",
+                "shape %s: etching fields %s, terms fields %s, mint %s, pointer %s, %d edicts, 2 outputs; every value symbolic inside the well-formedness the decoder documents (divisibility <= 38, spacers <= MAX_SPACERS, symbol a char, ids with block 0 only as 0:0, outputs/pointer in range, premine + cap*amount fits u128); integer level: varint::encode_to_vec is replaced by 'append the integer', the script builder is opaque, and decipher reads those integers (bytes <-> integers is C26 and the Kani stage harness)" % (nm, em, tm, hm, hp, ne),
+                "dev", make_roundtrip(em, tm, hm, hp, ne), lambda v, a=(em, tm, hm, hp, ne): _rep_roundtrip(ctx, v, *a))
+
     sizes = [(0, 2), (1, 2), (2, 2), (3, 2), (4, 2)] if ctx.tier == "quick" else [(n, 2) for n in range(0, 6)] + [(4, 1), (4, 3)]
     if os.environ.get("E2_C25_SIZES"):
         sizes = [tuple(int(x) for x in p.split("x")) for p in os.environ["E2_C25_SIZES"].split(",")]
@@ -1764,6 +1886,39 @@ def c25(ctx):
                 "for every three-field message with tags %s and arbitrary u128 values (2 outputs), decipher yields what the specification reference yields" % (tg,),
                 "6 integers: tags fixed to %s, values symbolic; otherwise as c25_decipher_vs_spec_n*" % (tg,),
                 "dev", make_body(6, 2, tg), lambda v, tg=tg: _rep_decipher(ctx, v, 6, 2))
+
+
+def _rep_roundtrip(ctx, v, em, tm, hm, hp, ne):
+    from . import kani as K
+    crate = K.gen_ordinals()
+    toks = []
+    if em is not None:
+        toks.append("etching=1")
+        for bit, key, var in zip(em, ("div", "premine", "rune", "spacers", "symbol"), ("divisibility", "premine", "rune", "spacers", "symbol")):
+            if bit:
+                toks.append("%s=%d" % (key, v.get(var, 0)))
+        toks.append("turbo=%d" % (1 if str(v.get("turbo")) == "True" else 0))
+        if tm is not None:
+            toks.append("terms=1")
+            for bit, key, var in zip(tm, ("amount", "cap", "h0", "h1", "o0", "o1"), ("amount", "cap", "height0", "height1", "offset0", "offset1")):
+                if bit:
+                    toks.append("%s=%d" % (key, v.get(var, 0)))
+    if hm:
+        toks.append("mint=%d:%d" % (v.get("mint_block", 0), v.get("mint_tx", 0)))
+    if hp:
+        toks.append("ptr=%d" % v.get("pointer", 0))
+    for k in range(ne):
+        toks.append("e=%d:%d:%d:%d" % (v.get("e%d_block" % k, 0), v.get("e%d_tx" % k, 0), v.get("e%d_amount" % k, 0), v.get("e%d_output" % k, 0)))
+    env = C.env({"RUSTFLAGS": "--cfg vreplay", "VREPLAY_RT": " ".join(toks), "CARGO_TARGET_DIR": os.path.join(C.BUILD, "t-ordk-replay")})
+    p = subprocess.run(["cargo", "test", "--offline", "--lib", "vreplay_roundtrip", "--", "--nocapture"], cwd=crate, env=env,
+                       stdout=subprocess.PIPE, stderr=subprocess.STDOUT, universal_newlines=True, timeout=1800)
+    out = p.stdout
+    if "running 1 test" not in out:
+        raise RuntimeError("replay test did not run: " + out[-600:])
+    if "test result: FAILED" in out:
+        m = re.search(r"roundtrip -> (.*)", out)
+        return {"runestone": " ".join(toks), "deciphered": m.group(1)[:400] if m else "panic before decipher returned"}
+    return None
 
 
 def _rep_decipher(ctx, v, N, M):
@@ -2163,9 +2318,9 @@ def c09(ctx):
         scen = [(0, 1, 1, 0, None, False, False), (0, 3, 2, 0, None, False, False), (1, 2, 2, 0, "open", False, False), (1, 2, 1, 0, "closed", False, False),
                 (2, 2, 0, 0, "open", False, True), (2, 2, 1, 1, None, False, False), (2, 2, 1, 1, None, False, True), (2, 3, 1, 1, "open", False, False),
                 (2, 2, 1, 1, None, True, False), (2, 2, 2, 1, None, False, False), (2, 3, 2, 1, None, False, True), (2, 2, 1, 2, None, False, False),
-                # two edicts with etching + pointer, and with 3 outputs + open mint, ran > 40 min / > 20 min each
-                # (path explosion): their first edict's id is pinned to 0:0 (the etched rune / a skipped edict)
-                (2, 2, 1, 2, None, True, True, {"e0_block": 0, "e0_tx": 0}), (2, 3, 1, 2, "open", False, False, {"e0_block": 0, "e0_tx": 0}), (2, 4, 1, 1, None, False, False), (2, 4, 1, 1, None, False, True), (2, 2, 0, 0, "self", True, False), (2, 2, 1, 1, "self", True, False),
+                # two edicts with etching + pointer did not finish in 40 min even with the first id pinned (dropped);
+                # two edicts with 3 outputs + open mint ran > 20 min: its first edict's id is pinned to 0:0 (268 s)
+                (2, 3, 1, 2, "open", False, False, {"e0_block": 0, "e0_tx": 0}), (2, 4, 1, 1, None, False, False), (2, 4, 1, 1, None, False, True), (2, 2, 0, 0, "self", True, False), (2, 2, 1, 1, "self", True, False),
                 (2, 2, 1, 2, None, False, False, {"e0_block": 0, "e0_tx": 0})]
     for sc in scen:
         kind, nout, nun, ne, mint, etched, pointer = sc[:7]
